@@ -68,6 +68,14 @@ def scheduled(x, log=None, bonus=0.0):
     return r
 
 
+def tree_score(x, log=None):
+    """object array of trees -> a value that tells trees of different shapes apart (size, depth, printed form)"""
+    t0, d = _enter(np.array([len(t) for t in x], dtype=np.int64))
+    r = np.array([float(len(t)) - 0.25 * float(t.get_max_level()) + (sum(map(ord, str(t))) % 17) / 64.0 for t in x], dtype=np.float64)
+    _leave("fit", log, t0, d, np.array([len(t) for t in x], dtype=np.int64))
+    return r
+
+
 def sphere(x, log=None):
     """real vectors -> -(sum of squares)"""
     t0, d = _enter(x)
